@@ -159,6 +159,11 @@ def g_rhythm(fmt, tier, seed):
         for s in seqs(alpha, n):
             evs = [lf(k, v, d, i) for i, (k, v, d) in enumerate(s)]
             yield _case(fmt, evs)
+    # triple dots: every kind and value alone and followed by a quarter note
+    for k in kinds:
+        for v in values:
+            yield _case(fmt, [lf(k, v, 3, 0)])
+            yield _case(fmt, [lf(k, v, 3, 0), lf("n", 4, 0, 1)])
     nb = 1 if tier == "thorough" else 6
     for s in seqs(small, 3):
         evs = [lf(k, v, d, i) for i, (k, v, d) in enumerate(s)]
@@ -276,15 +281,15 @@ METERS = [(4, 4), (3, 4), (6, 8), (2, 2)]
 
 
 def g_mei_decl(tier, seed):
-    """where meter, key and clef are declared (staffDef attributes / staffDef children / scoreDef attributes),
+    """where meter, key and clef are declared (staffDef attributes / staffDef children / scoreDef attributes / scoreDef children),
     full product with key, mode, meter, clef, number of staves; second measure is a measure rest"""
     keys = [0, 2, -2, 7, -7] if tier == "quick" else list(range(-7, 8))
     modes = [None, "minor"] if tier == "quick" else [None, "major", "minor"]
     for fifths in keys:
         for mode in modes:
-            for kd in ("staffdef-attr", "staffdef-child", "scoredef-attr"):
+            for kd in ("staffdef-attr", "staffdef-child", "scoredef-attr", "scoredef-child"):
                 for meter in METERS[:3] if tier == "quick" else METERS:
-                    for md in ("staffdef-attr", "staffdef-child", "scoredef-attr"):
+                    for md in ("staffdef-attr", "staffdef-child", "scoredef-attr", "scoredef-child"):
                         for clef in (("G", 2), ("F", 4), ("C", 3)):
                             for cd in ("attr", "child"):
                                 for nst in (1, 2):
@@ -298,7 +303,7 @@ def g_mei_decl(tier, seed):
                                                    "group": "nested" if (nst == 2 and cd == "child") else "flat",
                                                    "label": cd == "attr"}}
                                     c = {"f": "mei", "doc": doc}
-                                    if tier == "thorough" or clef != ("C", 3) or block_of(c, 3) == seed % 3:
+                                    if tier == "thorough" or block_of(c, 2) == seed % 2 or (fifths == 2 and mode is None and clef == ("G", 2)):
                                         yield c
 
 
@@ -597,6 +602,92 @@ def g_kern_split(tier, seed):
                     yield {"f": "kern", "doc": doc}
 
 
+def _fills_for(q):
+    """a few event lists of total length q quarters (q in {2, 5/2, 3})"""
+    if q == F(2):
+        return [[lf("n", 2)], [lf("n", 4), lf("r", 4)], [{"k": "tup", "num": 3, "nb": 2, "ev": [lf("n", 4), lf("n", 4), lf("c", 4)]}],
+                [lf("n", 4, 1), lf("n", 8)]]
+    if q == F(5, 2):
+        return [[lf("n", 8), lf("n", 2)], [lf("r", 8), lf("n", 4), lf("c", 4)], [lf("n", 2), {"k": "tup", "num": 3, "nb": 2, "ev": [lf("n", 16), lf("r", 16), lf("n", 16)]}]]
+    if q == F(3):
+        return [[lf("n", 2, 1)], [lf("n", 4), lf("n", 2)], [lf("n", 8), lf("r", 8), lf("c", 2)], [lf("n", 4, 2), lf("n", 16), lf("n", 4)]]
+    raise ValueError(q)
+
+
+def g_kern_split_mid(tier, seed):
+    """the spine splits inside the measure (after 1 or 2 events of the main spine), merged at the barline; every
+    sub-spine filling of the remaining length; measure 1 or 2; alone / second spine left / right / same part"""
+    mains = [[lf("n", 4), lf("n", 4), lf("n", 2)], [lf("n", 2), lf("n", 2)], [lf("n", 4, 1), lf("n", 8), lf("n", 2)], [lf("r", 4), lf("c", 4), lf("n", 2)]]
+    fs = fillings((4, 4), "kern")
+    for mi_split in (0, 1):
+        for main in mains:
+            for at in range(1, len(main)):
+                rem = 4 - sum((M.leaf_dur(e) for e in main[:at]), F(0))
+                for sub in _fills_for(rem):
+                    assert M.seq_len(sub, (4, 4)) == rem
+                    for other in (None, "left", "right", "same"):
+                        ms = [reindex(main if mi == mi_split else fs[(mi + at) % 5], mi * 3) for mi in range(2)]
+                        spl = {str(mi_split): {"at": at, "sub": reindex(sub, 5)}}
+                        if other is None:
+                            doc = kern_doc([ms], splits=[spl])
+                        else:
+                            oth = [reindex(fs[(at + mi + 2) % 5], 6 + mi) for mi in range(2)]
+                            if other == "left":
+                                doc = kern_doc([oth, ms], splits=[None, spl], staffs=[2, 1])
+                            elif other == "right":
+                                doc = kern_doc([ms, oth], splits=[spl, None], staffs=[2, 1])
+                            else:
+                                doc = kern_doc([ms, oth], splits=[spl, None], staffs=[2, 1], parts=["1", "1"], style={"same_part": "part"})
+                        yield {"f": "kern", "doc": doc}
+
+
+RICH = [
+    [lf("n", 4), lf("n", 4), lf("n", 2)],
+    [lf("n", 4, 1), lf("n", 8), lf("r", 4, 2), lf("n", 16)],
+    [{"k": "tup", "num": 3, "nb": 2, "ev": [lf("n", 4), lf("n", 4), lf("n", 4)]}, lf("n", 2)],
+    [{"k": "tup", "num": 5, "nb": 4, "ev": [lf("n", 16), lf("n", 16), lf("r", 16), lf("n", 16), lf("n", 16)]}, lf("n", 4), lf("c", 2)],
+    [lf("n", 2), {"k": "tup", "num": 7, "nb": 4, "ev": [lf("n", 8)] * 7}],
+    [{"k": "tup", "num": 3, "nb": 2, "ev": [lf("n", 8, 1), lf("n", 16), lf("n", 8)]}, lf("n", 4), lf("n", 8, 2), lf("n", 32), lf("r", 4)],
+]
+
+
+def g_mixed(fmt, tier, seed):
+    """2 staves/spines x 2 measures, every combination of 6 fillings with different subdivisions (dotted, double
+    dotted, 3:2, 5:4, 7:4, dotted inside a triplet): the divisions must serve all of them; kern: separate parts and
+    one part"""
+    for choice in itertools.product(range(len(RICH)), repeat=4):
+        a = [reindex(RICH[choice[0]], 0), reindex(RICH[choice[1]], 1)]
+        b = [reindex(RICH[choice[2]], 2), reindex(RICH[choice[3]], 3)]
+        if fmt == "mei":
+            for two_layers in (False, True):
+                if two_layers:
+                    d = mei_doc([a, b])
+                else:
+                    d = mei_doc([a])
+                    d["staves"].append({"n": 2, "clef": ["F", 4], "layers": [{"n": 1, "m": b}]})
+                c = {"f": "mei", "doc": d}
+                if tier == "thorough" or block_of(c, 2) == seed % 2:
+                    yield c
+        else:
+            for same in (False, True):
+                d = kern_doc([b, a], staffs=[2, 1], parts=["1", "1"] if same else None, style={"same_part": "part"} if same else {})
+                c = {"f": "kern", "doc": d}
+                if tier == "thorough" or block_of(c, 2) == seed % 2:
+                    yield c
+
+
+def g_kern_partial_part(tier, seed):
+    """3 spines of which two carry the same *part / *I interpretation (the reader only merges spines when all agree)"""
+    fs = fillings((4, 4), "kern")
+    for how in ("part", "I"):
+        for labels in (["2", "1", "1"], ["1", "1", "2"]):
+            for a in range(5):
+                sms = [[reindex(fs[(a + s + mi) % 5], s * 2 + mi) for mi in range(2)] for s in range(3)]
+                labs = labels if how == "part" else [{"1": "piano", "2": "violn"}[x] for x in labels]
+                doc = kern_doc(sms, staffs=[3, 2, 1], parts=labs, style={"same_part": how})
+                yield {"f": "kern", "doc": doc, "partial_part": True}
+
+
 def g_kern_chord_ties(tier, seed):
     """ties that start or end in a chord token (documented as unsupported by the reader)"""
     for ms in _tie_seq_cases("mei"):
@@ -636,12 +727,13 @@ def part_spec(doc):
     nid = [0]
     expected = []
     pos = F(0)
+    open_by_layer = {}
     for mi in range(doc["nm"]):
         ends = []
         for st in doc["staves"]:
             for ly in st["layers"]:
                 p = pos
-                open_t = {}
+                open_t = open_by_layer.setdefault((st["n"], ly["n"]), {})
 
                 def emit(evs, tup):
                     nonlocal p
@@ -825,7 +917,7 @@ def spaces(tier, seed):
     q = " (quick: fixed core + hash block VERIF_SEED of the rest; thorough: everything)"
     return [
         sp("mei-rhythm", g_rhythm, "1 staff, 1 layer, 1 measure; all sequences of <=2 events over {note,chord,rest,space} x "
-           "{whole..16th (thorough: breve..32nd)} x {0,1,2 dots}; all 3-event sequences over {note,rest,space} x {4,8,16} x {0,1 dots}; "
+           "{whole..16th (thorough: breve..32nd)} x {0,1,2 dots}; triple-dotted events alone and before a quarter; all 3-event sequences over {note,rest,space} x {4,8,16} x {0,1 dots}; "
            "the <=2 sequences again with declared ppq/dur.ppq" + q, "mei"),
         sp("kern-rhythm", g_rhythm, "1 spine, 1 measure; all sequences of <=2 tokens over {note,chord,rest} x {whole..16th} x {0,1,2 dots}; "
            "all 3-token sequences over {note,rest,chord} x {4,8,16} x {0,1 dots}" + q, "kern"),
@@ -834,8 +926,8 @@ def spaces(tier, seed):
         sp("kern-tuplet", g_tuplet, "same groups as mei-tuplet written as reciprocal values (12, 6, 20, 3%2 ...), beam marks", "kern"),
         sp("mei-pitch", g_pitch, "7 steps x alter {none,0,+-1,+-2} x octaves 1..7 (thorough 0..8) as note and in a chord x 4 ways of writing accidentals", "mei"),
         sp("kern-pitch", g_pitch, "7 steps x alter {none,n,#,-,##,--} x octaves 1..7 (thorough 0..8) as note and in a chord", "kern"),
-        sp("mei-decl", g_mei_decl, "key x mode x key declaration place x meter x meter declaration place x clef x clef declaration x 1-2 staves; "
-           "quick: keys {0,+-2,+-7}, modes {none,minor}, C clef by block; thorough: keys -7..7, 3 modes, 4 meters"),
+        sp("mei-decl", g_mei_decl, "key x mode x key declaration place (4) x meter x meter declaration place (4) x clef {G2,F4,C3} x clef declaration x "
+           "1-2 staves; quick: keys {0,+-2,+-7}, modes {none,minor}, 3 meters, one hash block of 2 plus a fixed core; thorough: keys -7..7, 3 modes, 4 meters"),
         sp("mei-layout", g_mei_layout, "5 staff/layer configurations (also non-consecutive n) x 2 measures, every filling per layer-measure "
            "(7 fillings incl. measure rest and leading space; 4 for >4 slots, quick: one hash block of 4); cross-staff attribute"),
         sp("mei-changes", g_mei_changes, "meter {4/4,3/4,6/8}^2 x key change x attr/child x at measure 2/3 x 1-2 staves with measure rests; "
@@ -851,6 +943,11 @@ def spaces(tier, seed):
         sp("kern-layout", g_kern_layout, "2 spines (separate / one part) and 3 spines x 2 measures, every filling per spine-measure (5; 3 for 3 spines)"),
         sp("kern-changes", g_kern_changes, "meter {4/4,3/4,6/8}^2 x key change x at measure 2/3 x 1-2 spines"),
         sp("kern-split", g_kern_split, "spine split for measure 1 or 2: 5 main fillings x 5 sub-spine fillings x {alone, second spine left, right}"),
+        sp("kern-split-mid", g_kern_split_mid, "spine split after 1 or 2 events of 4 main fillings x every sub-spine filling of the remaining "
+           "length x measure 1/2 x {alone, second spine left/right, second spine of the same part}"),
+        sp("mei-mixed", g_mixed, "2 layers or 2 staves x 2 measures x 6 fillings with different subdivisions (6^4 combinations)" + q, "mei"),
+        sp("kern-mixed", g_mixed, "2 spines (separate parts / one part) x 2 measures x the same 6 fillings (6^4 combinations)" + q, "kern"),
+        sp("kern-partial-part", g_kern_partial_part, "3 spines, two of them marked as one part (*part / *I), 5 fillings"),
         sp("kern-chord-ties", g_kern_chord_ties, "the mei-ties sequences whose ties touch a chord, written in kern"),
         sp("roundtrip-mei", g_roundtrip, "parts built through the public API: rhythm sequences (<=2 events, dots), 4 staff/voice layouts x fillings, "
            "tuplet groups, tie patterns, 7x6x7 pitches, grace notes; save_mei -> load_mei" + q, "mei"),
@@ -1211,7 +1308,11 @@ def _has_chord_tie(case, v):
     return bool(case.get("chord_tie"))
 
 
-TRIGGERS = {"kern_tie_touches_chord": _has_chord_tie}
+def _partial_part(case, v):
+    return bool(case.get("partial_part"))
+
+
+TRIGGERS = {"kern_tie_touches_chord": _has_chord_tie, "kern_some_spines_share_a_part": _partial_part}
 
 
 if __name__ == "__main__":
